@@ -574,7 +574,7 @@ func conversionRolesRule(c *an.Ctx, rule string, dirs ...string) {
 				word := func(s, name string) bool {
 					return regexp.MustCompile(`(^|[^\w›‹.])` + regexp.QuoteMeta(name) + `([^\w‹]|$)`).MatchString(s)
 				}
-				bound := regexp.MustCompile(`(^|[^\w›‹.])` + regexp.QuoteMeta(tgt) + `\s*(,\s*[\w‹›.$]+\s*)?:?=|,\s*` + regexp.QuoteMeta(tgt) + `\s*:?=`).MatchString(before) || tgt == "p" || tgt == "res" || tgt == "v" && strings.Contains(before, "range")
+				bound := regexp.MustCompile(`(^|[^\w›‹.])`+regexp.QuoteMeta(tgt)+`\s*(,\s*[\w‹›.$]+\s*)?:?=|,\s*`+regexp.QuoteMeta(tgt)+`\s*:?=`).MatchString(before) || tgt == "p" || tgt == "res" || tgt == "v" && strings.Contains(before, "range")
 				line := 1 + strings.Count(src[:m[0]], "\n")
 				construct := fmt.Sprintf("%s#%s(%s,%s)", rel, helper, res, tgt)
 				var probs []string
